@@ -143,7 +143,9 @@ class C19(P.Property):
                 k = rng.choice([0, 1, ln, ln + 2, rng.randint(0, n + 2)])
                 st = {"op": "sslice", "s": s, "vals": [rv() for _ in range(k)]}
                 if rng.random() < 0.35:
-                    st["wrap"] = rng.choice(["gen", "iter", "tuple"])  # the values arrive as a one-shot iterable (generator, iterator) or a tuple
+                    st["wrap"] = rng.choice(["gen", "iter", "tuple", "gen_reading"])
+                    if st["wrap"] == "gen_reading":  # a generator that reads the array it is being assigned to (an item, a membership test) before each value
+                        st["peek"] = [rng.randrange(-1, n) for _ in range(3)]  # the values arrive as a one-shot iterable (generator, iterator) or a tuple
                 if op == "sslice_bad":
                     if k and rng.random() < 0.9:
                         st["badpos"] = rng.randrange(k)
@@ -237,6 +239,11 @@ class C19(P.Property):
 
         def full_check(si, why):
             got = outcome(lambda: a[:])
+            if got[0] == "ok" and (type(got[1]) is not list or any(type(x) is not bytes for x in got[1])):
+                kinds = sorted({type(x).__name__ for x in got[1]}) if isinstance(got[1], list) else type(got[1]).__name__
+                viol.append(V("C19.read", "MODEL_MISMATCH", f"step {si} ({why}): a full read gives {kinds}, a list of bytes items gives bytes objects "
+                                                         f"(hashable, immutable)", step=si))
+                return False
             if got != ("ok", model):
                 bad_ix = [i for i in range(n) if got[0] == "ok" and got[1][i] != model[i]][:5] if got[0] == "ok" else got
                 viol.append(V("C19.state", "MODEL_MISMATCH", f"step {si} ({why}): full read differs from model at {bad_ix}", step=si))
@@ -372,9 +379,19 @@ class C19(P.Property):
                         else:
                             badpos = None
                     wrap = st.get("wrap") if vals is not None else None
-                    if wrap in ("gen", "iter"):
+                    if wrap in ("gen", "iter", "gen_reading"):
                         probe("slice_one_shot_values")
-                    given = 5 if vals is None else (x for x in vals) if wrap == "gen" else iter(vals) if wrap == "iter" else tuple(vals) if wrap == "tuple" else vals
+
+                    def reading(vals_, peek):
+                        for q, x in enumerate(vals_):
+                            j = peek[q % len(peek)]
+                            if j < 0:
+                                (b"\x01" * isz) in a  # a membership test walks the whole array
+                            else:
+                                a[j]
+                            yield x
+                    given = (5 if vals is None else (x for x in vals) if wrap == "gen" else iter(vals) if wrap == "iter" else tuple(vals) if wrap == "tuple"
+                             else reading(vals, st["peek"]) if wrap == "gen_reading" else vals)
                     got = outcome(lambda: a.__setitem__(s, given))
                     obs.append((op, got[0]))
                     if idx is None or vals is None:
@@ -518,6 +535,7 @@ class C19(P.Property):
                     closed = False
                     reopened = True
                     since_reopen = -1
+
                     touched_last = False
                     if not files_ok(si):
                         break
